@@ -4,7 +4,7 @@ M = "mingus.containers.bar.Bar."
 CONTRACTS = {}
 CLASSES = {
     "Bar": {"class": "mingus.containers.bar.Bar",
-            "fields": {"bar": "list[any]", "current_beat": "real", "length": "real", "meter": "(int,int)"}},
+            "fields": {"bar": "list[entry]", "current_beat": "real", "length": "real", "meter": "(int,int)"}},
 }
 
 
@@ -57,3 +57,18 @@ _c("place_notes", params={"self": "Bar", "notes": "None", "duration": "real"},
              dict(name="int-value", params={"self": "Bar", "notes": "None", "duration": "int"})],
    **_PLACE)
 CLASSES["NoteContainer"] = {"class": "mingus.containers.note_container.NoteContainer", "fields": {"notes": "[Note]"}}
+
+
+# removing the last entry: the total goes back by that entry's length, the entries before it stay
+_c("remove_last_entry",
+   params={"self": "Bar"},
+   requires=[("last-entry-has-a-value", "len(self.bar) == 0 or self.bar[len(self.bar) - 1][1] != 0")],
+   returns="real",
+   old={"old_beat": "self.current_beat", "old_len": "len(self.bar)", "old_bar": "self.bar",
+        "last_value": "(self.bar[len(self.bar) - 1][1] if len(self.bar) > 0 else 1)"},
+   ensures=[("one-entry-fewer", "len(self.bar) == old_len - 1"),
+            ("earlier-entries-untouched", "list_prefix_same(self.bar, old_bar, old_len - 1)"),
+            ("current-beat-goes-back-by-its-length", "feq(self.current_beat, old_beat - 1 / last_value)"),
+            ("returns-the-current-beat", "result == self.current_beat")],
+   raises={"IndexError": "len(self.bar) == 0"},
+   modifies=["param:self"], battery="bars_filled")
